@@ -164,25 +164,29 @@ Proof.
   destruct (rstep_spec checked caching status pg cache {| rq_method := HEAD; rq_ae := ae; rq_ranges := hdrs; rq_ims := ims |} Hf Hc Hst) as [H1 _].
   destruct (rstep_spec checked caching status pg cache {| rq_method := GET; rq_ae := ae; rq_ranges := hdrs; rq_ims := ims |} Hf Hc Hst) as [H2 _].
   rewrite H1, H2. cbn [omap]. unfold reply_spec, answers_304, rq_range, fresh. cbn [rq_method rq_ae rq_ranges rq_ims get_or_head].
-  destruct (rejected (hd_error hdrs)); [reflexivity|].
+  destruct (rejected (hd_error (rev hdrs))); [reflexivity|].
   destruct (is_stored cache && true && (ims =? 1)); [reflexivity|].
   rewrite wire_spec_head. reflexivity.
 Qed.
 
 (** A ranged reply is a slice of the un-ranged reply of the same Accept-Encoding class:
     206 body = bytes a..=min(b,len-1) of the 200 body, and the encoding header is the same. *)
+Lemma rq_range_last m ae more v ims :
+  rq_range {| rq_method := m; rq_ae := ae; rq_ranges := more ++ [v]; rq_ims := ims |} = Some v.
+Proof. unfold rq_range. cbn [rq_ranges]. rewrite rev_app_distr. reflexivity. Qed.
+
 Lemma ranged_is_slice_of_unranged pg ae v more a c :
   parse_range v = Some (a, c) -> a <= c -> a < N.of_nat (length (rp_body (choose pg ae))) ->
   exists full part,
     reply_spec 200 pg false {| rq_method := GET; rq_ae := ae; rq_ranges := []; rq_ims := 0 |} = WResp full /\
-    reply_spec 200 pg false {| rq_method := GET; rq_ae := ae; rq_ranges := v :: more; rq_ims := 0 |} = WResp part /\
+    reply_spec 200 pg false {| rq_method := GET; rq_ae := ae; rq_ranges := more ++ [v]; rq_ims := 0 |} = WResp part /\
     w_status full = 200 /\ w_status part = 206 /\
     w_content_encoding part = w_content_encoding full /\
     w_body part = firstn (N.to_nat (N.min c (w_content_length full - 1) - a + 1)) (skipn (N.to_nat a) (w_body full)) /\
     w_content_length part = N.of_nat (length (w_body part)).
 Proof.
-  intros Hp Hac Hlen. unfold reply_spec, answers_304, wire_spec, rejected, rq_range.
-  cbn [rq_method rq_ae rq_ranges rq_ims header_range hd_error andb].
+  intros Hp Hac Hlen. unfold reply_spec, answers_304, wire_spec, rejected. rewrite rq_range_last.
+  unfold rq_range. cbn [rq_method rq_ae rq_ranges rq_ims header_range hd_error rev app andb].
   rewrite Hp. replace (c <? a) with false by lia.
   unfold range_spec_st, range_spec.
   replace (a <=? c) with true by lia. replace (a <? N.of_nat (length (rp_body (choose pg ae)))) with true by lia.
@@ -191,11 +195,13 @@ Proof.
   repeat split; reflexivity.
 Qed.
 
-(** Only the first [Range] line of a request is looked at. *)
-Lemma first_range_line checked caching status pg cache m ae v more ims :
-  rstep checked caching status pg cache {| rq_method := m; rq_ae := ae; rq_ranges := v :: more; rq_ims := ims |}
+(** Only the last [Range] line of a request is looked at. *)
+Lemma last_range_line checked caching status pg cache m ae v more ims :
+  rstep checked caching status pg cache {| rq_method := m; rq_ae := ae; rq_ranges := more ++ [v]; rq_ims := ims |}
   = rstep checked caching status pg cache {| rq_method := m; rq_ae := ae; rq_ranges := [v]; rq_ims := ims |}.
-Proof. reflexivity. Qed.
+Proof.
+  unfold rstep, rstep_gen. rewrite rq_range_last. reflexivity.
+Qed.
 
 (** The reply to a request is the property's function of the reply to the same request without Range,
     in the same state of the server ("the representation that a request without Range would receive"). *)
